@@ -78,7 +78,8 @@ ENCODINGS = [
     ("bytes / addresses: hex", "hex::decode", None),
     ("bytes: base64 envelopes", "base64::Engine::decode", None),
     ("addresses: bech32", "bech32::decode", None),
-    ("UTxO references: `txid#index`", "core::str::<impl str>::split_once", None),
+    # (any of the splitting primitives; an unbounded `split` must have its third segment looked at - see below)
+    ("UTxO references: `txid#index`", "core::str::<impl str>::split_once || core::str::<impl str>::rsplit_once || core::str::<impl str>::split || core::str::<impl str>::splitn || core::str::<impl str>::rsplit || core::str::<impl str>::rsplitn", None),
     ("UTxO references: the index is a u32", "core::str::<impl str>::parse|u32", None),
 ]
 
@@ -111,6 +112,23 @@ def encodings(F, res, cg):
             res.add([finding("ENCODINGS", key, "crates/tx3-resolver/src/interop.rs", "%s: `%s` is no longer on the decoding path" % (what, name.split("::<")[0]))])
             continue
         res.add([ok("ENCODINGS", key, where(hits[0][0], hits[0][1]["line"]), "%s in %s" % (name.split("::")[-1], hits[0][0]["path"].split("::")[-1]))])
+    # an unbounded split taken apart by hand: `txid#index` has exactly two segments, so besides the two `next()` that fetch
+    # them something must look at the rest of the iterator (a third `next()`, `count`, `collect`, ..) - otherwise whatever
+    # follows a second `#` is dropped and an ill-formed reference is accepted
+    for f, t in calls:
+        if (t.get("callee") or "") in ("core::str::<impl str>::split", "core::str::<impl str>::rsplit") and t.get("dest") is not None:
+            users = []
+            for bi2, t2 in mir.calls(f):
+                if t2 is t:
+                    continue
+                tys = [f["locals"][pl["l"]] for pl in (mir.op_place(a) for a in t2["args"]) if pl is not None and not pl["p"]]
+                if any("str::Split<" in ty or "str::RSplit<" in ty for ty in tys):
+                    users.append((t2.get("callee") or "").split("::")[-1])
+            key = "%s|every segment of the split is accounted for" % f["path"]
+            if users and all(u == "next" for u in users) and len(users) <= 2:
+                res.add([finding("ENCODINGS", key, where(f, t["line"]), "%s takes %d segment(s) of an unbounded `split` with `next()` and never looks at the rest of the iterator: text after a further separator is dropped, so an ill-formed `txid#index` value is accepted instead of rejected" % (f["path"].split("::")[-1], len(users)))])
+            else:
+                res.add([ok("ENCODINGS", key, where(f, t["line"]), "consumers of the split iterator: %s" % ", ".join(users[:6]))])
     # radix of every text-to-integer parse
     for f, t in calls:
         if (t.get("callee") or "").endswith("::from_str_radix") and len(t["args"]) > 1:
